@@ -62,7 +62,7 @@ pub fn judge_image(image: &[u16], stack: bool, fuel: u64) -> Result<Option<(Stri
     if io.out_unjudged || io.out.contains('\x1b') {
         return Err("program output in a corner left open (see C02)");
     }
-    if obs.out != io.out {
+    if obs.out.replace('\0', "") != io.out.replace('\0', "") {
         return Ok(Some(("run/output".into(), format!("printed {:?}, model prints {:?}", obs.out.chars().take(40).collect::<String>(), io.out.chars().take(40).collect::<String>()))));
     }
     Ok(None)
@@ -172,6 +172,28 @@ pub fn templates() -> Vec<(&'static str, Vec<u16>, bool)> {
     v.push(("puts", vec![0x3000, 0xE002, 0xF022, 0xF025, 0x0048, 0x0169, 0x00FF, 0x0000], false));
     v.push(("putsp", vec![0x3000, 0xE002, 0xF024, 0xF025, 0x6548, 0x6C6C, 0x006F, 0x0000], false));
     v.push(("putn-reg", vec![0x3000, 0x1025, 0xF026, 0xF027, 0xF025], false));
+    // packed strings with a zero low byte in front of a character, first and in the middle
+    v.push(("putsp-zero-low-byte", vec![0x3000, 0xE002, 0xF024, 0xF025, 0x4241, 0x5800, 0x4443, 0x0000], false));
+    v.push(("putsp-zero-low-byte", vec![0x3000, 0xE002, 0xF024, 0xF025, 0x5800, 0x4241, 0x0000], false));
+    // OUT of every byte value, one image each for four ranges
+    for chunk in 0..4u16 {
+        // build: for k in 0..64: LD R0, table[k] ; OUT  -- table follows the code
+        let mut code = Vec::new();
+        for k in 0..64u16 {
+            let ld_at = 2 * k; // word index of this LD within the code
+            let table_index = 129 + k; // code is 128 words + HALT
+            let off = table_index as i32 - (ld_at as i32 + 1);
+            code.push(0x2000 | (off as u16 & 0x1FF));
+            code.push(0xF021);
+        }
+        code.push(0xF025);
+        for k in 0..64u16 {
+            code.push(0x3100 | (chunk * 64 + k)); // garbage in the high byte must be ignored
+        }
+        let mut img = vec![0x3000];
+        img.extend(code);
+        v.push(("out-every-byte", img, false));
+    }
     // spin forever (cut by fuel) while storing into own code
     v.push(("spin-with-store", vec![0x3000, 0x1021, 0x3001, 0x0FFD, 0x0000], false));
     // programs at the top of user space
